@@ -686,9 +686,19 @@ def ins_case(case, outdir):
             tab[:, i + 1] = lp + lj
         return tab, interior
 
-    for source in ("draw", "training_samples"):
+    for source in ("draw", "draw_from_flows", "training_samples"):
         if source == "draw":
             s, lq = ip.draw(600)
+        elif source == "draw_from_flows":
+            # samples from the whole mixture (public method; every level incl. the prior level), with the table of per-level densities
+            s, lq, _counts = ip.draw_from_flows(600, weights=np.asarray(weights, dtype=float))   # (the default weights=None path divides the dict of weights: stale, not a density question)
+            logQ2, lq2 = ip.compute_meta_proposal_samples(s)
+            ref, interior = reference_table(s)
+            ctx = f"{source}, {len(s)} samples, {ip.n_proposals} proposals"
+            rec.bump("ins_points_in_eps_band", int((~interior).sum()))
+            rec.compare("draw_from_flows() log_q table vs compute_meta_proposal_samples()", "C08:importance:draw_from_flows-table-differs-from-recomputed-table", lq, lq2, ctx, "cmp_ins_table")
+            rec.compare("draw_from_flows() log_q table vs independent per-flow evaluation", "C08:importance:draw_from_flows-table-differs-from-direct-evaluation", lq[interior], ref[interior], ctx, "cmp_ins_direct")
+            continue
         else:
             s = fs.ns.training_samples.samples.copy()
             lq = None
